@@ -1,5 +1,10 @@
 package proxy
 
+import (
+	"io"
+	"net/http"
+)
+
 // C20 — proxy HTML injection: the injection point is the first head marker inside the inspected prefix.
 
 func verifMarkers() []string { return []string{"</head", "<link", "<style", "<script"} }
@@ -83,4 +88,58 @@ func verifC20Window(k int) {
 func verifC20Vacuity() {
 	_ = findBodyInjectionIndex(verifString("body", 7, "</head"))
 	verifAssert(false, "vacuity")
+}
+
+// ---------------------------------------------------------------------------
+// filterHTML with its environment stubbed: decompression and the Latin-1 round
+// trip are identities on ASCII bodies (their contracts), the content-script
+// template yields a fixed tag.
+
+type verifBody struct{ closed bool }
+
+func (b *verifBody) Read(p []byte) (int, error) { return 0, io.EOF }
+func (b *verifBody) Close() error               { b.closed = true; return nil }
+
+var verifBodyBytes []byte
+
+func verifReadDecompressedBody(res *http.Response) ([]byte, error) { return verifBodyBytes, nil }
+func verifDecodeLatin1(r io.Reader) (string, error)                { return string(verifBodyBytes), nil }
+func verifEncodeLatin1(s string) ([]byte, error)                   { return []byte(s), nil }
+func verifBuildInjection(s *Server, session *Session) string       { return "<T>" }
+
+func verifC20Filter(n int, alpha int) {
+	alphabets := []string{"</hHeEaAdDx", "<lLiInNkKsStTyYx", "<sScCrRiIpPtTx/"}
+	body := verifString("body", n, alphabets[alpha])
+	verifBodyBytes = []byte(body)
+	orig := &verifBody{}
+	res := &http.Response{Header: http.Header{"Content-Encoding": {"gzip"}, "Content-Security-Policy": {"x"}, "Content-Type": {"text/html"}}, Body: orig, ContentLength: -1}
+	session := &Session{HTTPResponse: res, ID: "1"}
+	srv := &Server{}
+	err := srv.filterHTML(session)
+	verifAssert(err == nil, "c20: filtering succeeds")
+	if err != nil {
+		return
+	}
+	out, rerr := io.ReadAll(res.Body)
+	verifAssert(rerr == nil, "c20: the new body is readable")
+	idx := -1
+	for i := n - 1; i >= 0; i-- {
+		if i < headBufferSize && verifMarkerAt(body, i) {
+			idx = i
+		}
+	}
+	want := body
+	if idx >= 0 {
+		verifReach("c20.injected")
+		want = body[:idx] + "<T>" + body[idx:]
+	} else {
+		verifReach("c20.unchanged")
+	}
+	verifAssert(string(out) == want, "c20: output == body with exactly one tag before the first in-window marker, else the body unchanged")
+	verifAssert(res.ContentLength == int64(len(out)), "c20: the declared length is the new body length")
+	_, hasEnc := res.Header["Content-Encoding"]
+	verifAssert(!hasEnc, "c20: Content-Encoding is removed")
+	verifAssert(orig.closed, "c20: the original body is closed")
+	_, hasType := res.Header["Content-Type"]
+	verifAssert(hasType, "c20: other headers are kept")
 }
